@@ -192,13 +192,15 @@ def finish(prop, tier, seed, results, known, wall, verbose):
                 o = dict(o, path_clause=True)
             seen_names.add(o['name'])
             seen_vc.setdefault(o['name'], set()).add(o.get('vc', 0))
+            if o['status'] == 'known':
+                # the obligation of a recorded finding: not proved and not counted as an obligation of the proof claim; it is
+                # listed under known_findings_hit / obligations_not_holding_known_finding
+                known_hits.append(o)
+                continue
             n_obl += 1
             per_kind[o['kind']] = per_kind.get(o['kind'], 0) + 1
             if o['status'] == 'discharged':
                 n_dis += 1
-            elif o['status'] == 'known':
-                n_dis += 1
-                known_hits.append(o)
             elif o['status'] == 'failed':
                 viol.append(o)
             elif o.get('model') and _confirmed_natively(prop, o):
@@ -236,6 +238,7 @@ def finish(prop, tier, seed, results, known, wall, verbose):
             'samples': samples[:12],
             'undecided': undecided,
             'known_findings_hit': [o['name'] for o in known_hits],
+            'obligations_not_holding_known_finding': len(known_hits),
             'source_hash': astdb.source_hash(),
             'vcs_identical_to_pinned_tree': sum(1 for n, vs in seen_vc.items() for v in vs if v in (base_p.get(n) or ())),
             'vcs_total_distinct': sum(len(vs) for vs in seen_vc.values()),
@@ -346,7 +349,17 @@ def finish(prop, tier, seed, results, known, wall, verbose):
             print('UNDECIDED: ' + u)
     exp = base_p if prop in baseline else None
     if exp is not None and code == 0:
-        missing = sorted(set(exp) - seen_names)
+        # names of safety obligations carry the line offset inside the function ("@+2"); lines inserted above a statement
+        # shift it without dropping anything, so names are compared modulo the offset, by count per stem
+        def _stem(n_):
+            return re.sub(r'@([^+@]*)\+\d+$', r'@\1', n_)
+        have = {}
+        for n_ in seen_names:
+            have[_stem(n_)] = have.get(_stem(n_), 0) + 1
+        want = {}
+        for n_ in exp:
+            want.setdefault(_stem(n_), []).append(n_)
+        missing = sorted(n_ for st_, ns_ in want.items() if have.get(st_, 0) < len(ns_) for n_ in ns_ if n_ not in seen_names)
         if len(missing) > 0 and os.environ.get('VERIF_WRITE_BASELINE') != '1':
             # obligations of the pinned tree that were not even generated: a dropped clause / loop contract or an
             # extraction change -- never a silent pass
@@ -372,8 +385,9 @@ def finish(prop, tier, seed, results, known, wall, verbose):
     if verbose or code != 0:
         for f in funcs:
             print('  %-70s paths=%d obligations=%d %.1fs' % (f['contract'], f['paths'], f['obligations'], f['secs']))
-    print('%s: %d obligations, %d discharged, %d violations, %d undecided, %.1fs' % (
-        prop, n_obl, n_dis, len(real_viol) + len(standin_viol), len(undecided), wall))
+    print('%s: %d obligations, %d discharged, %d violations, %d undecided%s, %.1fs' % (
+        prop, n_obl, n_dis, len(real_viol) + len(standin_viol), len(undecided),
+        (', %d not holding (known finding)' % len(known_hits)) if known_hits else '', wall))
     return code
 
 
